@@ -182,6 +182,34 @@ pub fn run<C: NatCtx>(v: &mut Env<C>) {
             // the hash input, which decides on groups where collisions mod q are negligible
             expect_reject(v, &out, strict || certain, || format!("proof with {} on {} N={}", name, tok, nn));
         }
+        // ---- commitment and response shifted CONSISTENTLY (equation still holds if the challenge does
+        // not move): accepted exactly when that commitment is not bound by the challenge hash
+        {
+            let pk_inv = s.pkv.modpow(&(&q - 1u32), &p);
+            let g_inv = g.modpow(&(&q - 1u32), &p);
+            let mut fam: Vec<(String, PlainProof)> = vec![];
+            for k in 0..3 {
+                let mut m = h.pp.clone();
+                m.s[k] = bump_x(&m.s[k]);
+                m.t[k] = bump_e(&m.t[k]);
+                fam.push((format!("s{}+1 with t{}*g", k + 1, k + 1), m));
+            }
+            let mut m = h.pp.clone();
+            m.s[3] = bump_x(&m.s[3]);
+            m.t[3] = (&m.t[3] * &pk_inv) % &p;
+            m.t[4] = (&m.t[4] * &g_inv) % &p;
+            fam.push(("s4+1 with t4_1/pk and t4_2/g".to_string(), m));
+            for i in 0..nn {
+                let mut m = h.pp.clone();
+                m.s_hats[i] = bump_x(&m.s_hats[i]);
+                m.t_hats[i] = bump_e(&m.t_hats[i]);
+                fam.push((format!("s_hat[{}]+1 with t_hat[{}]*g", i, i), m));
+            }
+            for (name, m) in fam {
+                let out = verify_case(v, &s, &s.gensv, &s.pkv, &m, &h.es, &h.eps, &h.label);
+                expect_reject(v, &out, strict, || format!("proof with {} (consistent shift) on {} N={}", name, tok, nn));
+            }
+        }
         // ---- every combination of the five vector lengths in 0..N+1
         if small && nn <= (if quick { 2 } else { 3 }) {
             v.h.exhaustive_notes.push(format!("{}: all {}^5 vector-length combinations for N={}", tok, nn + 2, nn));
